@@ -8,8 +8,8 @@ package exit_test
 // the destination actually dialled — plus the handler's ack/err reply through a recording
 // StreamWriter (only used to know when a request has been fully decided; never as a verdict).
 // Oracle: every accepted connection must be justified by the configuration *as it is now*:
-// destination (or the requested literal) inside a present network under the most liberal CIDR
-// reading, or requested name matching an allowed pattern (documented single-level wildcard).
+// destination (or the requested literal) inside a present network of its own address family (as
+// documented: 0.0.0.0/0 = all IPv4, ::/0 = all IPv6; an IPv4-mapped literal counts as IPv4), or requested name matching an allowed pattern (documented single-level wildcard).
 // Refusals are never judged (the property says "only when"); they are counted so that a run in
 // which nothing was connected is inconclusive.
 //
@@ -31,6 +31,7 @@ import (
 	"github.com/postalsys/muti-metroo/internal/crypto"
 	"github.com/postalsys/muti-metroo/internal/exit"
 	"github.com/postalsys/muti-metroo/internal/identity"
+	"github.com/postalsys/muti-metroo/internal/protocol"
 	"github.com/postalsys/muti-metroo/internal/verifkit"
 )
 
@@ -87,17 +88,11 @@ func c19RandV4(rng *verifkit.Rand) netip.Addr {
 // c19GenNet: a network in or around 127/8 (sometimes centred on an address the DNS table serves),
 // written in one of several textual forms; sometimes an IPv6 or catch-all network.
 func c19GenNet(rng *verifkit.Rand) string {
-	switch rng.Intn(24) {
-	case 0:
-		return "::1/128"
-	case 1:
-		return "::/0"
-	case 2:
-		return "fd00::/8"
-	case 3:
-		return "0.0.0.0/0"
-	case 4:
-		return "::/127"
+	switch rng.Intn(32) {
+	case 0, 1, 2, 3, 4, 5:
+		return c19GenNet6(rng)
+	case 6, 7, 8:
+		return c19GenShort4(rng)
 	}
 	var base netip.Addr
 	switch rng.Intn(4) {
@@ -122,6 +117,18 @@ func c19GenNet(rng *verifkit.Rand) string {
 	return p.Masked().String()
 }
 
+// c19GenNet6: IPv6-only networks, from the default route down to a host route. None of them
+// covers an IPv4 (or IPv4-mapped) destination.
+func c19GenNet6(rng *verifkit.Rand) string {
+	return []string{"::/0", "::/0", "::/0", "::/1", "8000::/1", "::/8", "::/16", "::/64", "::/127", "::1/128", "fd00::/8", "2000::/3", "fe80::/10"}[rng.Intn(13)]
+}
+
+// c19GenShort4: IPv4 default route and very short IPv4 prefixes (also in the mapped spelling).
+// None of them covers an IPv6 destination such as ::1.
+func c19GenShort4(rng *verifkit.Rand) string {
+	return []string{"0.0.0.0/0", "0.0.0.0/1", "0.0.0.0/2", "64.0.0.0/2", "128.0.0.0/1", "127.0.0.0/8", "126.0.0.0/7", "0.0.0.0/8", "::ffff:0:0/96", "::ffff:0.0.0.0/97", "::ffff:127.0.0.0/104"}[rng.Intn(11)]
+}
+
 // c19Boundary returns addresses on both sides of both edges of a network (IPv4 only).
 func c19Boundary(p netip.Prefix, rng *verifkit.Rand) netip.Addr {
 	a := p.Masked().Addr()
@@ -129,7 +136,10 @@ func c19Boundary(p netip.Prefix, rng *verifkit.Rand) netip.Addr {
 		a = a.Unmap()
 	}
 	if !a.Is4() {
-		return netip.MustParseAddr("::1")
+		if rng.Chance(1, 4) {
+			return netip.MustParseAddr("::1")
+		}
+		return c19RandV4(rng) // cross-family: an IPv4 destination against an IPv6 network
 	}
 	bits := p.Bits()
 	if p.Addr().Is6() {
@@ -137,6 +147,9 @@ func c19Boundary(p netip.Prefix, rng *verifkit.Rand) netip.Addr {
 		if bits < 0 {
 			bits = 0
 		}
+	}
+	if bits < 8 { // shorter than the observable 127/8: aim inside 127/8, which is in or out as a whole
+		return c19RandV4(rng)
 	}
 	b := a.As4()
 	first := uint32(b[0])<<24 | uint32(b[1])<<16 | uint32(b[2])<<8 | uint32(b[3])
@@ -254,6 +267,25 @@ func c19Permitted(req string, dest netip.Addr, nets []string, patterns []string)
 	return false
 }
 
+// c19OnlyFamily: every present network is an IPv4 network (v4=true; mapped spelling included) /
+// an IPv6 network (v4=false).
+func c19OnlyFamily(nets []string, v4 bool) bool {
+	if len(nets) == 0 {
+		return false
+	}
+	for _, n := range nets {
+		p, ok := kitParseNet(n)
+		if !ok {
+			return false
+		}
+		is4 := p.Addr().Is4() || p.Addr().Is4In6()
+		if is4 != v4 {
+			return false
+		}
+	}
+	return true
+}
+
 func c19InAny(a netip.Addr, nets []string) bool {
 	for _, n := range nets {
 		if p, ok := kitParseNet(n); ok && kitContains(p, a) {
@@ -308,6 +340,8 @@ func TestVerif_C19(t *testing.T) {
 	r.Require("connected_via_dynamic", 50)
 	r.Require("refused_after_remove", 30)
 	r.Require("empty_config_probes", 50)
+	r.Require("refused_ipv4_dest_by_ipv6_only_config", 200)
+	r.Require("ipv6_literal_not_permitted", 40)
 }
 
 func c19History(r *verifkit.R, ci int, rng *verifkit.Rand, env *c19Env) {
@@ -315,9 +349,33 @@ func c19History(r *verifkit.R, ci int, rng *verifkit.Rand, env *c19Env) {
 	var static []string
 	var patterns []string
 	empty := rng.Chance(1, 8)
+	// family mode: 0 mixed, 1 IPv6-only exit (every IPv4 / IPv4-mapped / resolved destination must be
+	// refused), 2 IPv4-only exit made of default/short prefixes (IPv6 destinations must be refused)
+	famMode := 0
+	switch rng.Intn(8) {
+	case 0, 1:
+		famMode = 1
+	case 2:
+		famMode = 2
+	}
+	genNet := func() string {
+		switch famMode {
+		case 1:
+			return c19GenNet6(rng)
+		case 2:
+			if rng.Bool() {
+				return c19GenShort4(rng)
+			}
+		}
+		return c19GenNet(rng)
+	}
 	if !empty {
-		for i, k := 0, rng.Intn(5); i < k; i++ {
-			static = append(static, c19GenNet(rng))
+		k := rng.Intn(5)
+		if famMode != 0 && k == 0 {
+			k = 1
+		}
+		for i := 0; i < k; i++ {
+			static = append(static, genNet())
 		}
 		for i, k := 0, rng.Intn(4); i < k; i++ {
 			patterns = append(patterns, c19PatternPool[rng.Intn(len(c19PatternPool))])
@@ -381,6 +439,9 @@ func c19History(r *verifkit.R, ci int, rng *verifkit.Rand, env *c19Env) {
 
 	probe := func() bool {
 		req, form := c19GenReq(rng, present(), removed)
+		if famMode == 2 && rng.Chance(1, 3) { // IPv6 destinations against an IPv4-only exit
+			req, form = []string{"::1", "0:0:0:0:0:0:0:1", "::", "fd00::1", "2001:db8::1", "fe80::1", "::2"}[rng.Intn(7)], "ipv6"
+		}
 		if systemResolver && form != "ipv4" && form != "ipv4-mapped" && form != "ipv6" {
 			req, form = []string{"localhost", "LOCALHOST", "127.0.0.1", "::ffff:127.0.0.1"}[rng.Intn(4)], "name"
 		}
@@ -389,6 +450,7 @@ func c19History(r *verifkit.R, ci int, rng *verifkit.Rand, env *c19Env) {
 		pr := &c19Probe{Req: req, Form: form}
 		steps = append(steps, c19Step{Op: "probe", Probe: pr})
 		herr := h.HandleStreamOpen(context.Background(), id, id+7, peer, req, uint16(env.sink.Port), eph)
+		dialErrCode := false // the answer is one of the protocol's connection-level error codes
 		if herr != nil {
 			pr.Reply = "sync-error"
 		} else {
@@ -401,6 +463,10 @@ func c19History(r *verifkit.R, ci int, rng *verifkit.Rand, env *c19Env) {
 				pr.Reply = "ack"
 			} else {
 				pr.Reply = fmt.Sprintf("err %d", rp.ErrCode)
+				switch rp.ErrCode {
+				case protocol.ErrConnectionRefused, protocol.ErrConnectionTimeout, protocol.ErrHostUnreachable, protocol.ErrNetworkUnreachable:
+					dialErrCode = true
+				}
 			}
 		}
 		accs, ok := env.sink.barrier()
@@ -416,6 +482,29 @@ func c19History(r *verifkit.R, ci int, rng *verifkit.Rand, env *c19Env) {
 		}
 		nets := present()
 		if len(accs) == 0 {
+			// Decision-level side monitor for the one direction the accept monitor cannot see: the stock
+			// exit cannot complete a dial to an IPv6 literal, so "an IPv6 destination was let through
+			// by an IPv4-only configuration" never produces an accept. For a pure IPv6 *literal*
+			// (nothing to resolve) that no present network covers, an answer with a connection-level
+			// error code (refused / timeout / host or network unreachable) instead of a refusal means
+			// the handler went on to dial it.
+			if l6, e6 := netip.ParseAddr(req); e6 == nil && l6.Zone() == "" && l6.Unmap().Is6() {
+				r.Add("ipv6_literal_probes", 1)
+				if !c19InAny(l6, nets) {
+					r.Add("ipv6_literal_not_permitted", 1)
+					if dialErrCode {
+						class := "outside-every-network"
+						if len(nets) == 0 && len(patterns) == 0 {
+							class = "nothing-configured"
+						} else if c19OnlyFamily(nets, true) {
+							class = "ipv4-only-configuration"
+						}
+						r.Violation("dial-attempted-not-permitted:ipv6-literal:"+class, "hist", ci,
+							fmt.Sprintf("request for the IPv6 literal %q, which lies in none of the present networks %v, was answered with connection-level error %s: the exit went on to dial it", req, nets, pr.Reply),
+							map[string]any{"static": static, "patterns": patterns, "steps": steps})
+					}
+				}
+			}
 			// refused (or unreachable): never judged. Counted per reason for the evidence.
 			lit, lerr := netip.ParseAddr(req)
 			wouldBe := false
@@ -428,6 +517,9 @@ func c19History(r *verifkit.R, ci int, rng *verifkit.Rand, env *c19Env) {
 			} else {
 				r.Add("refused_not_permitted", 1)
 				nRef++
+				if len(nets) > 0 && c19OnlyFamily(nets, false) {
+					r.Add("refused_ipv4_dest_by_ipv6_only_config", 1)
+				}
 				if lerr == nil && c19InAny(lit.Unmap(), removed) {
 					r.Add("refused_after_remove", 1)
 				}
@@ -453,6 +545,8 @@ func c19History(r *verifkit.R, ci int, rng *verifkit.Rand, env *c19Env) {
 			}
 			class := "outside-every-network:" + form
 			switch {
+			case len(nets) > 0 && c19OnlyFamily(nets, false):
+				class = "ipv6-only-configuration:" + form
 			case c19InAny(a.Dest, removed):
 				class = "removed-dynamic-network"
 			case len(nets) == 0 && len(patterns) == 0:
@@ -471,7 +565,7 @@ func c19History(r *verifkit.R, ci int, rng *verifkit.Rand, env *c19Env) {
 		c := rng.Intn(10)
 		switch {
 		case c == 0 && len(dynamic) < 4: // add a network that is not present in any spelling
-			nw := c19GenNet(rng)
+			nw := genNet()
 			p, ok := kitParseNet(nw)
 			if !ok {
 				continue
